@@ -59,6 +59,7 @@ func mkStrSlice(ts []*Term) Value {
 }
 
 func (e *Engine) freshStr(prefix string, maxLen int) *Term {
+	e.usedFresh = true
 	e.freshCount++
 	t := mkVar(fmt.Sprintf("%s!%d", prefix, e.freshCount), KStr, 0)
 	t.MaxLen = maxLen
@@ -66,6 +67,7 @@ func (e *Engine) freshStr(prefix string, maxLen int) *Term {
 }
 
 func (e *Engine) freshBool(prefix string) *Term {
+	e.usedFresh = true
 	e.freshCount++
 	return mkVar(fmt.Sprintf("%s!%d", prefix, e.freshCount), KBool, 0)
 }
@@ -456,8 +458,8 @@ func init() {
 		if x.MaxLen >= 0 {
 			maxParts = x.MaxLen/len(sep.SVal) + 1
 		}
-		if maxParts > 8 {
-			maxParts = 8
+		if maxParts > 12 {
+			maxParts = 12
 		}
 		for k := 0; k < maxParts; k++ {
 			idx := strIndexOf(rest, sep, mkInt(0))
@@ -759,6 +761,9 @@ func init() {
 		if x.Const {
 			return mkBool(validUTF8(x.SVal))
 		}
+		if allBelow(x, 0x80) {
+			return tTrue
+		}
 		// symbolic strings are ASCII unless a harness widens the alphabet; ASCII is valid UTF-8.
 		ascii := &Term{Op: "raw", K: KBool, Args: []*Term{x}, MaxLen: -1,
 			text: fmt.Sprintf(`(str.in_re %s (re.* (re.range "\u{0}" "\u{7f}")))`, x.String())}
@@ -792,4 +797,39 @@ func validUTF8(s string) bool {
 		}
 	}
 	return true
+}
+
+// allBelow reports that every byte of s is syntactically known to be < lim.
+func allBelow(s *Term, lim int) bool {
+	switch {
+	case s.Const:
+		for i := 0; i < len(s.SVal); i++ {
+			if int(s.SVal[i]) >= lim {
+				return false
+			}
+		}
+		return true
+	case s.Op == "var":
+		if s.Alpha == nil {
+			return false
+		}
+		for c := lim; c < 256; c++ {
+			if s.Alpha[c] {
+				return false
+			}
+		}
+		return true
+	case s.Op == "str.++":
+		for _, a := range s.Args {
+			if !allBelow(a, lim) {
+				return false
+			}
+		}
+		return true
+	case s.Op == "str.substr" || s.Op == "str.at":
+		return allBelow(s.Args[0], lim)
+	case s.Op == "ite":
+		return allBelow(s.Args[1], lim) && allBelow(s.Args[2], lim)
+	}
+	return false
 }
